@@ -12,29 +12,57 @@ package l4rdp
 
 // The fixed-size parsers: binary.Read into the receiver (no panic; they write the receiver only).
 //@ func (h *TPKTHeader) FromBytes(src []byte) (err error)
+//@ inline
 //@ requires h != nil
 //@ safety C04
 //@ assigns all(h)
 
 //@ func (x *X224Crq) FromBytes(src []byte) (err error)
+//@ inline
 //@ requires x != nil
 //@ safety C04
 //@ assigns all(x)
 
 //@ func (r *RDPNegReq) FromBytes(src []byte) (err error)
+//@ inline
 //@ requires r != nil
 //@ safety C04
 //@ assigns all(r)
 
 //@ func (i *RDPCorrInfo) FromBytes(src []byte) (err error)
+//@ inline
 //@ requires i != nil
 //@ safety C04
 //@ assigns all(i)
 
 // RDPToken.FromBytes appends what follows the fixed part to Optional: bounded by the source.
 //@ func (t *RDPToken) FromBytes(src []byte) (err error)
+//@ inline
 //@ requires t != nil && len(t.Optional) == 0 && cap(t.Optional) == 0 && len(src) <= 65535
 //@ safety C04
 //@ assigns all(t)
 //@ ensures[C04] len(t.Optional) <= len(src)
 //@ ensures[C04] err == nil ==> len(src) >= 11 && len(t.Optional) == len(src) - 11
+
+// Round-trip lemmas (C18): the Go functions in zz_lemmas_verif.go return true for all inputs.
+//@ func lemmaTPKTParseSerialize(src []byte) bool
+//@ ensures[C18] result
+//@ func lemmaX224ParseSerialize(src []byte) bool
+//@ ensures[C18] result
+//@ func lemmaNegReqParseSerialize(src []byte) bool
+//@ ensures[C18] result
+//@ func lemmaCorrInfoParseSerialize(src []byte) bool
+//@ ensures[C18] result
+// (tens of seconds of solver time: an obligation of the thorough tier only)
+//@ func lemmaTokenParseSerialize(src []byte) bool
+//@ requires len(src) <= 65535
+//@ ensures[C18@thorough] result
+
+//@ func lemmaTPKTSerializeParse(h TPKTHeader) bool
+//@ ensures[C18] result
+//@ func lemmaX224SerializeParse(x X224Crq) bool
+//@ ensures[C18] result
+//@ func lemmaNegReqSerializeParse(r RDPNegReq) bool
+//@ ensures[C18] result
+//@ func lemmaCorrInfoSerializeParse(i RDPCorrInfo) bool
+//@ ensures[C18] result
